@@ -467,12 +467,31 @@ Proof.
     + intros t c' Hin. apply Hq in Hin. rewrite N_srem_In. split; [apply (H8 t)|]; tauto.
 Qed.
 
+Lemma cg_contexts_of_spec d sp t :
+  R d sp ->
+  exists d1 l, cg_contexts_of d t = (d1, l) /\ R d1 sp /\ cenum l (sp_contexts_of (is_ds d) sp t) = true.
+Proof.
+  intros H. pose proof H as (Eq & _ & _ & Hn & _). unfold cg_contexts_of, sp_contexts_of. rewrite Eq.
+  assert (Hc : NoDup (ctxs_of t (sq sp))) by now apply ctxs_of_NoDup.
+  destruct (is_ds d).
+  - destruct (memb N.eqb 0 (ctxs_of t (sq sp))) eqn:Em.
+    + eexists; eexists; split; [reflexivity|]. split; auto.
+      apply (enum_ofb_spec _ N.eqb_spec). split; auto. intros x. rewrite N_sadd_In.
+      apply (memb_In _ N.eqb_spec) in Em. split; auto. intros [->|Hx]; auto.
+    + eexists; eexists; split; [reflexivity|]. split; [now apply R_know0|].
+      apply (enum_ofb_spec _ N.eqb_spec). split.
+      * apply NoDup_app_single; auto. now apply (memb_false _ N.eqb_spec).
+      * intros x. rewrite N_sadd_In, in_app_iff. simpl. intuition.
+  - eexists; eexists; split; [reflexivity|]. split; auto.
+    apply (enum_ofb_spec _ N.eqb_spec). split; auto. intros x; tauto.
+Qed.
+
 Lemma do_op_spec d sp o :
   R d sp -> leaks sp o = false ->
-  exists d1 r, do_op d o = (d1, r) /\ R d1 (sp_step sp o) /\ res_ok sp o r = true.
+  exists d1 r, do_op d o = (d1, r) /\ R d1 (sp_step sp o) /\ res_ok (is_ds d) sp o r = true.
 Proof.
   intros H Hleak.
-  destruct o as [t ca|l|p ca|oa|oa|c|p ca kw du|p ca|p ca du]; cbn [do_op sp_step].
+  destruct o as [t ca|l|p ca|oa|oa|c|p ca kw du|p ca|p ca du|t]; cbn [do_op sp_step].
   - (* add *)
     unfold cg_add. destruct (cg_spoc_spec d sp ca true H) as (d1 & E & HR). rewrite E.
     eexists; eexists; split; [reflexivity|]. split; [|reflexivity].
@@ -482,14 +501,15 @@ Proof.
     unfold cg_remove. destruct (cg_spoc_spec d sp ca false H) as (d1 & E & HR). rewrite E.
     eexists; eexists; split; [reflexivity|]. split; [|reflexivity].
     rewrite spoc_ctx_false. now apply R_remove.
-  - (* graph *)
-    eexists; eexists; split; [reflexivity|]. split; [|reflexivity].
-    destruct oa as [a|]; cbn [ds_graph].
-    + destruct (cg_graph_spec d sp (Some a) true H) as (d1 & E & HR). rewrite E. cbn [option_map].
-      apply (R_know d1 _ (arg_name a) HR).
-    + pose proof H as (_ & _ & Hf & _). rewrite Hf.
-      pose proof (R_know d sp (FRESH_BASE + sf sp) H) as (K1 & K2 & K3 & K4 & K5 & K6 & K7 & K8).
-      unfold R. cbn [st sq sk sf fresh] in *. repeat split; auto; try apply K7.
+  - (* graph: the state, and the graph handed back *)
+    eexists; eexists; split; [reflexivity|]. split.
+    + destruct oa as [a|]; cbn [ds_graph].
+      * destruct (cg_graph_spec d sp (Some a) true H) as (d1 & E & HR). rewrite E. cbn [option_map].
+        apply (R_know d1 _ (arg_name a) HR).
+      * pose proof H as (_ & _ & Hf & _). rewrite Hf.
+        pose proof (R_know d sp (FRESH_BASE + sf sp) H) as (K1 & K2 & K3 & K4 & K5 & K6 & K7 & K8).
+        unfold R. cbn [st sq sk sf fresh] in *. repeat split; auto; try apply K7.
+    + pose proof H as (_ & _ & Hf & _). unfold res_ok, ds_graph_name. destruct oa as [a|]; cbn [list_eqb]; rewrite ?Hf, N.eqb_refl; reflexivity.
   - (* remove_graph *)
     eexists; eexists; split; [reflexivity|]. split; [|reflexivity].
     destruct oa as [a|]; cbn [ds_remove_graph]; auto. now apply R_remove_graph.
@@ -502,6 +522,8 @@ Proof.
     rewrite E. eexists; eexists; split; [reflexivity|]. split; auto.
   - destruct (cg_contains_spec d sp p ca du H) as (d1 & E & HR).
     rewrite E. eexists; eexists; split; [reflexivity|]. split; auto. cbn [res_ok]. apply Bool.eqb_reflx.
+  - destruct (cg_contexts_of_spec d sp t H) as (d1 & l & E & HR & Hc).
+    rewrite E. eexists; eexists; split; [reflexivity|]. split; auto.
 Qed.
 
 Lemma list_eqb_refl {A} (e : A -> A -> bool) l : (forall x, e x x = true) -> list_eqb e l l = true.
@@ -563,7 +585,7 @@ Qed.
 
 Lemma is_ds_do_op d o : is_ds (fst (do_op d o)) = is_ds d.
 Proof.
-  destruct o as [t ca|l|p ca|oa|oa|c|p ca kw du|p ca|p ca du]; cbn [do_op].
+  destruct o as [t ca|l|p ca|oa|oa|c|p ca kw du|p ca|p ca du|t]; cbn [do_op].
   - unfold cg_add. pose proof (is_ds_cg_spoc d ca true) as H. destruct (cg_spoc d ca true) as [d1 c]. exact H.
   - apply is_ds_cg_addN.
   - unfold cg_remove. pose proof (is_ds_cg_spoc d ca false) as H. destruct (cg_spoc d ca false) as [d1 c]. exact H.
@@ -574,6 +596,8 @@ Proof.
   - pose proof (is_ds_cg_triples d p ca kw du) as H. destruct (cg_triples d p ca kw du). exact H.
   - pose proof (is_ds_cg_quads d p ca) as H. destruct (cg_quads d p ca). exact H.
   - pose proof (is_ds_cg_contains d p ca du) as H. destruct (cg_contains d p ca du). exact H.
+  - unfold cg_contexts_of. destruct (is_ds d) eqn:E; auto.
+    destruct (memb N.eqb 0 (ctxs_of t (quads (st d)))); auto.
 Qed.
 
 Lemma snapshot_spec c d sp :
@@ -640,7 +664,7 @@ Theorem spec_run_model c : forall ops d sp,
 Proof.
   induction ops as [|o r IH]; intros d sp H Hk Hl; [reflexivity|].
   cbn [leak_run] in *. apply orb_false_iff in Hl. destruct Hl as [L1 L2].
-  destruct (do_op_spec d sp o H L1) as (d1 & rs & E & R1 & Ok1).
+  destruct (do_op_spec d sp o H L1) as (d1 & rs & E & R1 & Ok1). rewrite Hk in Ok1.
   pose proof (is_ds_do_op d o) as K1. rewrite E in K1. cbn [fst] in K1.
   destruct (snapshot_spec c d1 _ R1 (eq_trans K1 Hk)) as (d2 & sn & E2 & R2 & K2 & Ok2).
   cbn [run]. rewrite E, E2. cbn [spec_run]. rewrite Ok1, Ok2. cbn [andb]. apply IH; auto.
@@ -906,11 +930,89 @@ Proof.
   assert (Hm : forall sp a, In 0 (sk sp) -> In 0 (sk (sp_merge sp a))).
   { intros sp a H. unfold sp_merge. destruct (arg_content a); auto. cbn [sk]. apply N_sadd_In. auto. }
   induction ops as [|o r IH]; intros sp H; auto. cbn [fold_left]. apply IH.
-  destruct o as [t ca|l|p ca|oa|oa|c|p ca kw du|p ca|p ca du]; cbn [sp_step]; auto.
+  destruct o as [t ca|l|p ca|oa|oa|c|p ca kw du|p ca|p ca du|t]; cbn [sp_step]; auto.
   - destruct ca as [|[a|]]; cbn [sp_target sp_add sk]; apply N_sadd_In; auto.
   - revert sp H. induction l as [|x l IHl]; intros sp H; auto. cbn [fold_left]. apply IHl.
     cbn [sp_add sk]. apply N_sadd_In; auto.
   - destruct oa as [a|]; cbn [sk]; apply N_sadd_In; auto.
   - destruct oa as [a|]; cbn [sk]; auto. destruct (N.eqb_spec (arg_name a) 0); auto.
     apply N_srem_In. split; auto.
+Qed.
+
+(* ------------------------------------------------------------------ *)
+(* round 3: reads that were only run so far *)
+
+(* triples() given a bare triple: the merged view under default_union (every
+   graph's triples, plus union-only ones if a store held any), the default
+   graph otherwise *)
+Lemma triples_plain d p du t :
+  In t (snd (cg_triples d p CTriple None du)) <->
+  matches p t = true /\
+  (if du then (exists g, holds d g t) \/ In t (orphans (st d)) else holds d 0 t).
+Proof.
+  unfold cg_triples. cbn [cg_spoc regraph option_map cg_graph snd]. rewrite map_fst_st_triples.
+  destruct du; cbn [du_dispatch st_match]; unfold holds.
+  - rewrite filter_In, in_app_iff, in_all_triples. tauto.
+  - rewrite in_q_triples. tauto.
+Qed.
+
+(* quads() given no graph does not look at default_union at all (it has no
+   such parameter in the model because the code never reads the flag there):
+   it enumerates exactly the quads, each once *)
+Lemma quads_all d p t g :
+  In (t, g) (snd (cg_quads d p CTriple)) <-> holds d g t /\ matches p t = true.
+Proof.
+  change (snd (cg_quads d p CTriple)) with (quads_of (st d) p None). rewrite quads_of_In. unfold holds.
+  cbn [st_match]. rewrite filter_In, in_app_iff, in_all_triples. split.
+  - intros [[_ Hm] Hq]. auto.
+  - intros [Hq Hm]. split; auto. split; auto. left. eauto.
+Qed.
+
+Lemma quads_all_NoDup d p : NoDup (quads (st d)) -> NoDup (orphans (st d)) ->
+  (forall t, In t (orphans (st d)) -> forall g, ~ holds d g t) -> NoDup (snd (cg_quads d p CTriple)).
+Proof.
+  intros Hq Ho Hd. change (snd (cg_quads d p CTriple)) with (quads_of (st d) p None).
+  apply quads_of_NoDup; auto. cbn [st_match]. apply filter_NoDup. apply NoDup_app_disj; auto using all_triples_NoDup.
+  intros x Hx Hy. apply in_all_triples in Hx. destruct Hx as (g & Hg). exact (Hd x Hy g Hg).
+Qed.
+
+(* graphs(triple) / contexts(triple): the graphs holding the triple - and, for
+   a Dataset, the default graph in any case (it is re-created and yielded when
+   it is not among them) *)
+Lemma contexts_of_triple d t g :
+  In g (snd (cg_contexts_of d t)) <-> holds d g t \/ (is_ds d = true /\ g = 0).
+Proof.
+  unfold cg_contexts_of, holds. destruct (is_ds d).
+  - destruct (memb N.eqb 0 (ctxs_of t (quads (st d)))) eqn:Em; cbn [snd].
+    + apply (memb_In _ N.eqb_spec) in Em. rewrite in_ctxs_of. split; auto.
+      intros [H|[_ ->]]; auto. now apply in_ctxs_of.
+    + rewrite in_app_iff, in_ctxs_of. simpl. intuition.
+  - cbn [snd]. rewrite in_ctxs_of. intuition discriminate.
+Qed.
+
+Lemma contexts_of_no_quad_write d t : quads (st (fst (cg_contexts_of d t))) = quads (st d).
+Proof.
+  unfold cg_contexts_of. destruct (is_ds d); auto. destruct (memb N.eqb 0 (ctxs_of t (quads (st d)))); auto.
+Qed.
+
+(* graph()/add_graph(): the name handed back is listed afterwards, and the
+   graph of that name holds exactly what it held plus what a foreign Graph
+   argument brought *)
+Lemma graph_returns_listed d oa :
+  In (ds_graph_name d oa) (known (st (ds_graph d oa))).
+Proof.
+  unfold ds_graph, ds_graph_name. destruct oa as [a|].
+  - pose proof (snd_cg_graph d (Some a) true) as Hs. destruct (cg_graph d (Some a) true) as [d1 c].
+    cbn [snd option_map] in Hs. subst c. cbn [set_st st st_add_graph known]. apply N_sadd_In. auto.
+  - cbn [st st_add_graph known]. apply N_sadd_In. auto.
+Qed.
+
+Lemma graph_holds d a g t :
+  holds (ds_graph d (Some a)) g t <-> holds d g t \/ (g = arg_name a /\ In t (arg_content a)).
+Proof.
+  unfold ds_graph. pose proof (holds_cg_graph d (Some a) true g t) as Hg.
+  pose proof (snd_cg_graph d (Some a) true) as Hs. destruct (cg_graph d (Some a) true) as [d1 c].
+  cbn [fst snd option_map] in *. subst c. unfold holds in *. cbn [set_st st st_add_graph quads]. rewrite Hg. split.
+  - intros [H|(_ & a' & [= <-] & H1 & H2)]; auto.
+  - intros [H|[H1 H2]]; auto. right. split; auto. eauto.
 Qed.
